@@ -42,7 +42,7 @@ def run(args):
     rep.floor("series_jacobian_cells", nser, 472)
     from . import rules_deriv
     nder = rules_deriv.check(rep, "C05")
-    rep.floor("derivative_rows", nder, 89)
+    rep.floor("derivative_rows", nder, 123)
     rep.floor("jet_switch_functions", nfj, 3)
     rep.floor("jet_jacobian_observables", noj, 8)
     rep.floor("functions_with_optional_outputs", len(opt_fns), 500)
@@ -63,7 +63,7 @@ def run(args):
         "R-NOALIAS: operands of A.noalias() = E living in the same matrix as A are disjoint from A",
         "C05.f R-POLY.jac (exact): for SO2, SE2, SO3, SE3, SE_2_3, SGal3, Rn the analytic Jacobians of inverse, compose (both) and act (both), evaluated over the polynomial ring, equal cell by cell the derivatives that follow from the matrix realisation and the hat/vee tables: J[inverse] = -Adj(X), J[compose]_X = Adj(Y^-1), J[compose]_Y = I, J[act]_X e_i = (T(X) E_i [p;e])[:Dim], J[act]_p = T(X)[:Dim,:Dim] - these operations' Jacobians ARE the true derivative",
         "C05.g R-SERIES.expjac/logjac: for SO2, SE2, SO3, SE3, SE_2_3, SGal3 the Jacobian written by exp(J), resp. by log(J) at exp(t), interpreted over truncated power series in the tangent (engine/jetnum.py), equals the series of the true derivative sum (-ad)^k/(k+1)!, resp. sum B_k (-ad)^k/k!, through order 4 cell by cell (ad = smallAdj, proved against the bracket by C07/C06)",
-        "C05.h R-SERIES.deriv (first principles): for SO2 and SE2 every operation (inverse, compose, act, exp, log, rplus, lplus, rminus, lminus, between; each Jacobian also requested alone), and for SO3 inverse / compose / between / act, the Jacobian written by the code equals, through order 2 at the identity and for a symbolic direction d, the eta-coefficient of f(.. (+) eta d ..) (-) f(..) computed by interpreting the library's own code over truncated power series with a nilpotent perturbation (eta^2 = 0); the second operand runs along one fixed generic rational direction with a free magnitude. rplus / lplus / rminus / lminus / between are one template for all groups (C04), so the formulas proved on the non-commutative SE2 are the ones every group executes",
+        "C05.h R-SERIES.deriv (first principles): for SO2 and SE2 every operation (inverse, compose, act, exp, log, rplus, lplus, rminus, lminus, between; each Jacobian also requested alone), and for SO3 inverse / compose / between / act / exp / log / rminus (rplus, lplus, lminus in the thorough tier), the Jacobian written by the code equals, through order 2 at the identity and for a symbolic direction d, the eta-coefficient of f(.. (+) eta d ..) (-) f(..) computed by interpreting the library's own code over truncated power series with a nilpotent perturbation (eta^2 = 0); the second operand runs along one fixed generic rational direction with a free magnitude; for rminus / lminus the pair is parametrised as (Y exp(e x), Y) resp. (exp(e x) Y, Y). rplus / lplus / rminus / lminus / between are one template for all groups (C04), so the formulas proved on the non-commutative SE2 are the ones every group executes",
         "C05.e R-JET: the Jacobian entries written on both sides of a small-angle switch (SE2Tangent::exp, SO3Tangent::exp, SO3::log) meet within 1e-7 (double) / 1e-3 (float) at the switch-over and have no negative-order term",
         "forwarding an optional (or a block of it) to a callee counts as the callee's proven write-set (modular summaries; *_impl helpers are summarised into their callers)",
     ]
